@@ -44,7 +44,11 @@ func (obj *StandardObject) Simplify() interface{} {
 
 // Hierarchy returns the class hierarchy as symbols for the instance.
 func (obj *StandardObject) Hierarchy() []slip.Symbol {
-	return obj.Type.precedenceList()
+	if p := obj.Type.precedenceList(); 0 < len(p) {
+		return p
+	}
+	// The class is waiting for a superclass to be defined.
+	return []slip.Symbol{slip.TrueSymbol}
 }
 
 // IsA return true if the instance is of a class that inherits from the
